@@ -188,7 +188,7 @@ func countTags(n *Node) (carousels, hamburgers int) {
 }
 
 func runC05(res *Result, tier string, seed int64, replay string) {
-	res.Rule = "documents = seeded grammar documents biased to ≥2 distinct web-font families (stacks naming several mapped fonts included), several column widths, mj-class lists, global attributes, carousels and hamburger navbars, + all fixtures; each compiled N times in this process (sequentially) and once in each of P fresh processes that compile the whole list in different orders; outputs compared byte-wise after α-renaming the 16-hex generated ids; per output the number of distinct ids must equal the number of carousels + hamburger navbars. Font lookup: real GetGoogleFontURL vs the Lean model `pick` on every family. Non-trivial = document with ≥2 distinct font families; distinct by source"
+	res.Rule = "documents = seeded grammar documents biased to ≥2 distinct web-font families (stacks naming several mapped fonts included), several column widths, mj-class lists, global attributes, carousels and hamburger navbars, + all fixtures; each compiled N times in this process (sequentially) and once in each of P fresh processes that compile the whole list in different orders (one of them the exact reverse); + pairs of documents differing in one class of head content only (other mj-attributes / mj-class / inline rules / fonts, same body and author HTML); outputs compared byte-wise after α-renaming the 16-hex generated ids; per output the number of distinct ids must equal the number of carousels + hamburger navbars. Font lookup: real GetGoogleFontURL vs the Lean model `pick` on every family. Non-trivial = document with ≥2 distinct font families; distinct by source"
 	nDocs, reps, procs := 150, 20, 4
 	if tier == "thorough" {
 		nDocs, reps, procs = 1500, 100, 12
@@ -211,6 +211,12 @@ func runC05(res *Result, tier string, seed int64, replay string) {
 		for i := 0; i < nDocs; i++ {
 			d := fontHeavyDoc(NewRng(seed, fmt.Sprintf("c05/%d", i)), i)
 			docs = append(docs, doc{fmt.Sprintf("gen:%d", i), d.MJML(), d})
+		}
+		// "regardless of what was compiled before": pairs of documents that differ in one class of head content only (the same
+		// body, the same author HTML, other mj-attributes / mj-class / inline rules / fonts …) — state kept from one compilation
+		// under a key that misses the differing part shows when the two are compiled in the other order
+		for _, ic := range isoClasses() {
+			docs = append(docs, doc{"iso:" + ic.name + ":a", ic.a, nil}, doc{"iso:" + ic.name + ":b", ic.b, nil})
 		}
 	}
 	// (1) repeated calls within this process, sequential
@@ -260,6 +266,12 @@ func runC05(res *Result, tier string, seed int64, replay string) {
 	var mu sync.Mutex
 	parallel(procs, procs, func(p int) {
 		perm := NewRng(seed, fmt.Sprintf("c05/perm/%d", p)).Perm(len(docs))
+		if p == 0 {
+			// one process compiles the list in exactly the reverse of this process's order
+			for i := range perm {
+				perm[i] = len(docs) - 1 - i
+			}
+		}
 		ops := make([]string, len(perm))
 		for i, k := range perm {
 			ops[i] = fmt.Sprintf("R%d", k)
